@@ -23,9 +23,12 @@ NAMES_FULL = ["local.", "_a._tcp.local.", "_A._tcp.local.", "x._a._tcp.local.", 
               "Etage 1.Café €._a._tcp.local.",
               # the longest name of the quantifier (253 characters with its dot, 254 octets on the wire), and a name of only
               # 138 characters that needs 263 octets on the wire (RFC 1035 allows 255)
-              f"{L63}.{L63}.{L63}.{'e' * 60}.", f"{U63}.{U63}.{U63}.{U63}.local."]
+              f"{L63}.{L63}.{L63}.{'e' * 60}.", f"{U63}.{U63}.{U63}.{U63}.local.",
+              # text that is not in Unicode normalisation form C (a decomposed accent, conjoining jamo, a compatibility
+              # singleton): it has to come back as spelled; the first of them in front of a suffix another name shares
+              "e\u0301.zz.local.", "q.zz.local.", "\u1100\u1161\u212b.local."]
 NAMES_RED = ["local.", "_a._tcp.local.", "_A._tcp.local.", "x._a._tcp.local.", "y.x._a._tcp.local.", "h.local.",
-             f"{L63}.local.", "drucker.büro.local.", "scanner.büro.local."]
+             f"{L63}.local.", "drucker.büro.local.", "scanner.büro.local.", "e\u0301.zz.local."]
 IP4, IP6 = b"\x0a\x00\x00\x01", bytes.fromhex("fe80000000000000000000000000abcd")
 
 
